@@ -22,6 +22,14 @@ claim("C17",
       "Trusted: strings.Split/Join as modelled; packages.Load, os.Stat and the file system are environment (observed by the oracle, not proved); 'existing directory' follows from 'ancestor of an existing directory'.",
       "Coq proof (split/join round trip, list lcp) + hook/LoadSources correspondence + file-system oracle", "DESIGN.md §5 C17")
 
+claim("C20",
+      "Coq theorems over every schedule, every number of concurrent requests and every tool environment for the instruction-level interleaving semantics of the "
+      "lazy-probe protocol: no data race on a cache field (lockset invariant), every access under the mutex, each tool probed at most once, formatter run exactly once per request iff the tool is present, "
+      "absent tool = nil and no run, failing run = error, no nil dereference, progress and an 8-steps-per-request bound. The program is re-translated from generator/formatters.go and cmd/gomacro.go "
+      "on every run and must be accepted by the Coq shape checker (compile/well_locked, vm_compute); the real FormatFile is driven under -race with recording stand-in tools and its probe/run/error counts must equal the model's.",
+      "Trusted: the go/ast translator; sync.Mutex semantics; the Go memory model, scheduler and os/exec are not modelled - the race detector run is the link (partial in that respect). Thread-local statements (switch, defer registration, log) are folded into the adjacent shared step.",
+      "Coq proof (Owicki-Gries style invariants over an interleaving semantics) + translator/reflection + -race correspondence", "DESIGN.md §5 C20")
+
 NOT_YET = "check not built yet in this round (planned, see DESIGN.md §6)"
 
 checks, na = [], []
